@@ -40,6 +40,9 @@ Proof.
   - apply IHForall2.
 Qed.
 
+Lemma Forall2_len {A B} (P : A -> B -> Prop) l l' : Forall2 P l l' -> length l = length l'.
+Proof. induction 1; cbn; auto. Qed.
+
 Lemma Forall2_left {A B} (P : A -> Prop) (Q : A -> B -> Prop) l l' :
   (forall a b, Q a b -> P a) -> Forall2 Q l l' -> Forall P l.
 Proof. intros H; induction 1; constructor; eauto. Qed.
@@ -390,7 +393,7 @@ Proof.
   rewrite <- (Qle_bool_compat _ _ _ _ Hn (Qeq_refl t)).
   destruct (Qle_bool (now s) t) eqn:E; auto. apply Qle_bool_iff in E.
   pose proof (flow_R s f t t HR E Hall (Qeq_refl t)) as HF.
-  unfold R; cbn [thr now scl act fin]. repeat split; auto. reflexivity.
+  unfold R; cbn [thr now scl act fin]. repeat split; auto; reflexivity.
 Qed.
 
 Lemma tick_length s i d :
@@ -465,7 +468,7 @@ Proof.
 Qed.
 
 Lemma R_length s f : R s f -> length (act s) = length (fact f).
-Proof. intros HR. eapply Forall2_length. apply HR. Qed.
+Proof. intros HR. eapply Forall2_len. apply HR. Qed.
 
 Lemma apply_R s f o : R s f -> op_ok o -> R (apply s o) (fapply f o).
 Proof.
@@ -505,3 +508,371 @@ Qed.
 Theorem windowed_equals_fluid T ops :
   Tpos T -> Forall op_ok ops -> Forall2 Rfin (run T ops) (frun T ops).
 Proof. intros HT Hok. apply (run_R T ops HT Hok). Qed.
+
+(** * Invariant of the windowed machine alone *)
+
+Definition Inv (s : st) : Prop :=
+  Tpos (thr s) /\ 0 < scl s /\ scl s == scale_of (thr s) (sum_lim (act s)) /\
+  Forall (Xok (now s) (scl s)) (act s).
+
+(** the fluid state a windowed state stands for *)
+Definition absx (t : Q) (x : xfer) : fx := mkF (xid x) (xlim x) (xvol x) (got t x).
+Definition abs (s : st) : fstate := mkFS (thr s) (now s) (map (absx (now s)) (act s)) (fin s).
+
+Lemma R_Inv s f : R s f -> Inv s.
+Proof.
+  intros (HT & Hs & Hsc & _ & _ & Hact & _). repeat split; auto.
+  eapply Forall2_left; [|exact Hact]. intros a b H; apply H.
+Qed.
+
+Lemma Forall_Forall2_map {A B} (P : A -> B -> Prop) g l :
+  Forall (fun a => P a (g a)) l -> Forall2 P l (map g l).
+Proof. induction 1; cbn; constructor; auto. Qed.
+
+Lemma Forall2_refl {A} (P : A -> A -> Prop) l : (forall a, P a a) -> Forall2 P l l.
+Proof. intros H; induction l; constructor; auto. Qed.
+
+Lemma Inv_R s : Inv s -> R s (abs s).
+Proof.
+  intros (HT & Hs & Hsc & Hact). unfold R; cbn. repeat split; auto; try reflexivity.
+  - apply Forall_Forall2_map. eapply Forall_impl; [|exact Hact].
+    intros x Hx. unfold Rx, absx; cbn. repeat split; auto; try apply Hx; reflexivity.
+  - apply Forall2_refl. intros [i t]; split; reflexivity.
+Qed.
+
+Theorem reach_Inv T ops :
+  Tpos T -> Forall op_ok ops -> Inv (fold_left apply ops (init T)).
+Proof. intros. eapply R_Inv, reach_R; auto. Qed.
+
+Lemma tick_Inv s : Inv s -> Inv (tick s).
+Proof. intros H. eapply R_Inv, tick_R, Inv_R; auto. Qed.
+
+Lemma advance_Inv fuel s b : (length (act s) <= fuel)%nat -> Inv s -> Inv (advance fuel s b).
+Proof. intros L H. eapply R_Inv, advance_R, Inv_R; auto. Qed.
+
+Lemma join_Inv s id v l :
+  Inv s -> 0 <= v -> match l with Fin l => 0 < l | Inf => True end -> Inv (join s id v l).
+Proof. intros H Hv Hl. eapply R_Inv, join_R; eauto. apply Inv_R; auto. Qed.
+
+Lemma cancel_Inv s id : Inv s -> Inv (cancel s id).
+Proof. intros H. eapply R_Inv, cancel_R, Inv_R; auto. Qed.
+
+(** * Rates: the property's first sentence, in every reachable state *)
+
+Lemma sum_lim_nonneg xs : Forall (fun x => 0 < xlim x) xs -> 0 <= sum_lim xs.
+Proof.
+  induction 1; [apply Qle_refl|]. unfold sum_lim in *; cbn. lra.
+Qed.
+
+Lemma sum_lim_pos xs x : Forall (fun x => 0 < xlim x) xs -> In x xs -> 0 < sum_lim xs.
+Proof.
+  induction 1; cbn; [tauto|]. intros [->|Hin].
+  - pose proof (sum_lim_nonneg _ H0). unfold sum_lim in *; cbn. lra.
+  - specialize (IHForall Hin). unfold sum_lim in *; cbn. lra.
+Qed.
+
+Lemma Inv_lims s : Inv s -> Forall (fun x => 0 < xlim x) (act s).
+Proof. intros (_ & _ & _ & H). eapply Forall_impl; [|exact H]. intros x Hx; apply Hx. Qed.
+
+(** the rate of the current window of every active transfer is the sharing formula *)
+Theorem window_rate s x :
+  Inv s -> In x (act s) -> xwr x == rate_of (thr s) (sum_lim (act s)) (xlim x).
+Proof.
+  intros (_ & _ & Hsc & Hact) Hin. rewrite Forall_forall in Hact.
+  destruct (Hact x Hin) as (_ & Hw & _). unfold rate_of. rewrite <- Hsc. exact Hw.
+Qed.
+
+Theorem window_rate_spec s x t :
+  Inv s -> thr s = Fin t -> In x (act s) ->
+  xwr x == Qmin (xlim x) (xlim x * t / sum_lim (act s)).
+Proof.
+  intros HI HT Hin. rewrite (window_rate s x HI Hin), HT.
+  pose proof HI as (HTp & _). rewrite HT in HTp; cbn in HTp.
+  pose proof (Inv_lims s HI) as Hl.
+  apply rate_spec; auto.
+  - eapply sum_lim_pos; eauto.
+  - rewrite Forall_forall in Hl. apply Qlt_le_weak; auto.
+Qed.
+
+Definition sum_wr (xs : list xfer) : Q := fold_right (fun x a => xwr x + a) 0 xs.
+
+Lemma sum_wr_scl t sc xs : Forall (Xok t sc) xs -> sum_wr xs == sc * sum_lim xs.
+Proof.
+  induction 1; unfold sum_wr, sum_lim in *; cbn; [ring|].
+  destruct H as (_ & Hw & _). rewrite IHForall, Hw. ring.
+Qed.
+
+(** the combined flow never exceeds the pipe's throughput *)
+Theorem sum_le_throughput s t : Inv s -> thr s = Fin t -> sum_wr (act s) <= t.
+Proof.
+  intros HI HT. pose proof (Inv_lims s HI) as Hl.
+  destruct HI as (HTp & _ & Hsc & Hact). rewrite HT in *; cbn in HTp.
+  rewrite (sum_wr_scl _ _ _ Hact), Hsc. apply scaled_sum_le; auto.
+  apply sum_lim_nonneg; auto.
+Qed.
+
+(** an uncongested pipe does not slow anyone down *)
+Theorem uncongested_full_speed s x :
+  Inv s -> match thr s with Fin t => sum_lim (act s) <= t | Inf => True end ->
+  In x (act s) -> xwr x == xlim x.
+Proof.
+  intros HI HU Hin. rewrite (window_rate s x HI Hin). apply uncongested_rate; auto.
+Qed.
+
+(** * Shape of throttle / tick *)
+
+Lemma throttle_proj s a :
+  thr (throttle s a) = thr s /\ now (throttle s a) = now s /\ fin (throttle s a) = fin s /\
+  (act (throttle s a) = a \/ act (throttle s a) = map (replan (now s) (scl (throttle s a))) a).
+Proof.
+  unfold throttle, relax, wake. destruct (thr s); [destruct (Qle_bool _ _)|];
+    try destruct (Qeq_bool _ _); cbn; auto.
+Qed.
+
+Lemma tick_proj s i d x :
+  argmin (map due (act s)) = Some (i, d) -> nth_error (act s) i = Some x ->
+  thr (tick s) = thr s /\ now (tick s) = d /\ fin (tick s) = fin s ++ [(xid x, d)] /\
+  (act (tick s) = remove_nth i (act s) \/
+   act (tick s) = map (replan d (scl (tick s))) (remove_nth i (act s))).
+Proof.
+  intros E N. unfold tick. rewrite E, N.
+  set (s1 := mkS _ _ _ _ _). apply (throttle_proj s1).
+Qed.
+
+Lemma argmin_nth s i d :
+  argmin (map due (act s)) = Some (i, d) ->
+  exists x, nth_error (act s) i = Some x /\ due x = d /\ Forall (fun z => d <= due z) (act s).
+Proof.
+  intros E. apply argmin_spec in E as [Hn Hall]. rewrite nth_error_map in Hn.
+  destruct (nth_error (act s) i) as [x|]; cbn in Hn; [|discriminate].
+  injection Hn as Hn. exists x. repeat split; auto. apply Forall_map_due in Hall. exact Hall.
+Qed.
+
+Lemma fin_tick_incl s : incl (fin s) (fin (tick s)).
+Proof.
+  destruct (argmin (map due (act s))) as [[i d]|] eqn:E.
+  - destruct (argmin_nth _ _ _ E) as (x & N & _).
+    destruct (tick_proj _ _ _ _ E N) as (_ & _ & -> & _). apply incl_appl, incl_refl.
+  - unfold tick. rewrite E. apply incl_refl.
+Qed.
+
+Lemma set_now_fin s b : fin (set_now s b) = fin s.
+Proof. destruct b; cbn; auto. destruct (Qle_bool _ _); auto. Qed.
+
+Lemma fin_advance_incl fuel : forall s b, incl (fin s) (fin (advance fuel s b)).
+Proof.
+  induction fuel as [|k IH]; intros s b; cbn.
+  - rewrite set_now_fin. apply incl_refl.
+  - destruct (argmin (map due (act s))) as [[i d]|]; [destruct (le_ext d b)|];
+      rewrite ?set_now_fin; try apply incl_refl.
+    eapply incl_tran; [apply fin_tick_incl | apply IH].
+Qed.
+
+(** * Completion exactly when the amount reaches the volume *)
+
+Lemma due_eq t x : 0 < xwr x -> got t x == xvol x -> due x == t.
+Proof. intros Hw H. unfold due. rewrite <- H. unfold got. field. lra. Qed.
+
+Lemma got_at_due x : 0 < xwr x -> got (due x) x == xvol x.
+Proof. intros Hw. pose proof (due_mul x Hw). unfold got. lra. Qed.
+
+(** when the earliest timer fires, that transfer has moved exactly its volume
+    and nobody else more than theirs *)
+Theorem tick_exact s i d :
+  Inv s -> argmin (map due (act s)) = Some (i, d) ->
+  exists x, nth_error (act s) i = Some x /\ now s <= d /\ got d x == xvol x /\
+            Forall (fun z => got d z <= xvol z) (act s).
+Proof.
+  intros (_ & Hs & _ & Hact) E. destruct (argmin_nth _ _ _ E) as (x & N & Hd & Hall).
+  exists x. rewrite Forall_forall in Hact, Hall.
+  pose proof (Hact x (nth_error_In _ _ N)) as Hx.
+  pose proof (Xok_wr_pos _ _ _ Hs Hx) as Hw.
+  split; [exact N|]. split; [|split].
+  - rewrite <- Hd. apply (now_le_due s x Hs Hx).
+  - rewrite <- Hd. apply got_at_due; auto.
+  - rewrite Forall_forall. intros z Hz.
+    apply le_due_iff; [exact (Xok_wr_pos _ _ _ Hs (Hact z Hz)) | exact (Hall z Hz)].
+Qed.
+
+(** the same on the fluid machine: the integral of the rate is exactly the volume *)
+Theorem ftick_exact f y : 0 < frate f y ->
+  famt y + (freach f y - fnow f) * frate f y == fvol y.
+Proof. intros H. unfold freach. field. lra. Qed.
+
+(** after letting time pass to [t], whoever is still active has moved strictly less than its
+    volume (so nobody stays in the pipe after reaching it), and time is [t] *)
+Theorem advance_settled fuel : forall s t,
+  Inv s -> (length (act s) <= fuel)%nat -> now s <= t ->
+  now (advance fuel s (Fin t)) == t /\
+  Forall (fun x => got t x < xvol x) (act (advance fuel s (Fin t))).
+Proof.
+  induction fuel as [|k IH]; intros s t HI Hlen Hnt.
+  - cbn. apply Qle_bool_iff in Hnt. rewrite Hnt. cbn. split; [reflexivity|].
+    destruct (act s); [constructor | cbn in Hlen; lia].
+  - cbn. destruct (argmin (map due (act s))) as [[i d]|] eqn:E.
+    + destruct (Qle_bool d t) eqn:L.
+      * apply Qle_bool_iff in L. destruct (argmin_nth _ _ _ E) as (x & N & _).
+        destruct (tick_proj _ _ _ _ E N) as (_ & Hn & _).
+        apply IH; [apply tick_Inv; auto | | rewrite Hn; auto].
+        pose proof (tick_length _ _ _ E). lia.
+      * pose proof Hnt as Hnt'. apply Qle_bool_iff in Hnt'. cbn. rewrite Hnt'. cbn.
+        split; [reflexivity|].
+        destruct (argmin_nth _ _ _ E) as (x & N & _ & Hall).
+        destruct HI as (_ & Hs & _ & Hact).
+        rewrite Forall_forall in *. intros z Hz. apply lt_due_iff.
+        { eapply Xok_wr_pos; eauto. }
+        assert (t < d).
+        { destruct (Qlt_le_dec t d) as [H|H]; auto. apply Qle_bool_iff in H. congruence. }
+        specialize (Hall z Hz). lra.
+    + apply argmin_none in E. pose proof Hnt as Hnt'. apply Qle_bool_iff in Hnt'.
+      cbn. rewrite Hnt'. cbn. split; [reflexivity|].
+      destruct (act s); [constructor | discriminate].
+Qed.
+
+(** * Zero volume and infinite throughput take no time *)
+
+Theorem infinite_takes_no_time s id v :
+  fin (join s id v Inf) = fin s ++ [(id, now s)] /\ act (join s id v Inf) = act s /\
+  now (join s id v Inf) = now s.
+Proof. cbn. auto. Qed.
+
+Lemma got_compat t t' x : t == t' -> got t x == got t' x.
+Proof. intros E. unfold got. rewrite E. reflexivity. Qed.
+
+(** a transfer with nothing left to move is recorded at the current time, whatever else
+    completes at this moment *)
+Lemma done_now fuel : forall s b x,
+  Inv s -> (length (act s) <= fuel)%nat -> In x (act s) -> got (now s) x == xvol x ->
+  le_ext (now s) b = true ->
+  exists d, d == now s /\ In (xid x, d) (fin (advance fuel s b)).
+Proof.
+  induction fuel as [|k IH]; intros s b x HI Hlen Hin Hg Hb.
+  - destruct (act s); [destruct Hin | cbn in Hlen; lia].
+  - cbn. destruct (argmin (map due (act s))) as [[i d]|] eqn:E.
+    2:{ apply argmin_none in E. destruct (act s); [destruct Hin | discriminate]. }
+    destruct (argmin_nth _ _ _ E) as (z & N & Hdz & Hall).
+    pose proof HI as (_ & Hs & _ & Hact). rewrite Forall_forall in Hact, Hall.
+    assert (Hd : d == now s).
+    { pose proof (Hall x Hin).
+      assert (due x == now s) by (apply due_eq; auto; eapply Xok_wr_pos; eauto).
+      assert (now s <= d).
+      { rewrite <- Hdz. eapply now_le_due; eauto. apply Hact. eapply nth_error_In; eauto. }
+      lra. }
+    rewrite (le_ext_compat _ _ b Hd), Hb.
+    destruct (tick_proj _ _ _ _ E N) as (_ & Hn & Hf & Hsh).
+    destruct (In_nth_error _ _ Hin) as (j & Nj).
+    destruct (Nat.eq_dec j i) as [->|Hji].
+    + exists d. split; auto. apply (fin_advance_incl k (tick s) b).
+      rewrite Hf. apply in_or_app. right. left. congruence.
+    + pose proof (In_remove_nth i j _ _ Nj Hji) as Hin'.
+      assert (exists x', In x' (act (tick s)) /\ xid x' = xid x /\
+                         got (now (tick s)) x' == xvol x') as (x' & I' & Hid & Hg').
+      { rewrite Hn. destruct Hsh as [->| ->].
+        - exists x. repeat split; auto. rewrite (got_compat _ _ _ Hd). exact Hg.
+        - exists (replan d (scl (tick s)) x). split; [apply in_map; auto|]. split; auto.
+          rewrite got_replan. cbn. rewrite (got_compat _ _ _ Hd). exact Hg. }
+      destruct (IH (tick s) b x') as (d' & Hd' & Hin''); auto.
+      * apply tick_Inv; auto.
+      * pose proof (tick_length _ _ _ E). lia.
+      * rewrite Hn. rewrite (le_ext_compat _ _ b Hd). exact Hb.
+      * exists d'. split; [rewrite Hd', Hn; exact Hd|]. rewrite <- Hid. exact Hin''.
+Qed.
+
+(** a zero-volume transfer is recorded complete at its own start time by whatever
+    the machine does next ([apply] and [drain] always begin with this [advance]) *)
+Theorem zero_volume_no_time s id l b :
+  Inv s -> 0 < l -> le_ext (now s) b = true ->
+  let s1 := join s id 0 (Fin l) in
+  exists d, d == now s /\ In (id, d) (fin (advance (length (act s1)) s1 b)).
+Proof.
+  intros HI Hl Hb s1.
+  assert (HI1 : Inv s1) by (apply join_Inv; auto; apply Qle_refl).
+  set (x0 := mkX id l 0 0 (now s) (l * scl s)).
+  destruct (throttle_proj s (act s ++ [x0])) as (_ & Hn & _ & Hsh).
+  fold x0 in Hsh. change (throttle s (act s ++ [x0])) with s1 in Hn, Hsh.
+  assert (exists x', In x' (act s1) /\ xid x' = id /\ got (now s1) x' == xvol x')
+    as (x' & I' & Hid & Hg').
+  { rewrite Hn. destruct Hsh as [->| ->].
+    - exists x0. split; [apply in_or_app; right; left; auto|]. split; auto.
+      unfold got; cbn. ring.
+    - exists (replan (now s) (scl s1) x0). split; [apply in_map, in_or_app; right; left; auto|].
+      split; auto. rewrite got_replan. unfold got; cbn. ring. }
+  destruct (done_now (length (act s1)) s1 b x') as (d & Hd & Hin); auto.
+  - rewrite Hn; auto.
+  - exists d. split; [rewrite Hd, Hn; reflexivity|]. rewrite <- Hid. exact Hin.
+Qed.
+
+(** * A transfer that leaves stops occupying bandwidth immediately *)
+
+Theorem leave_frees_bandwidth s id x' :
+  Inv s -> In x' (act (cancel s id)) ->
+  xid x' <> id /\
+  xwr x' == rate_of (thr s) (sum_lim (filter (fun x => negb (has_id id x)) (act s))) (xlim x').
+Proof.
+  intros HI Hin. pose proof (cancel_Inv s id HI) as HI'.
+  pose proof (window_rate _ _ HI' Hin) as Hw. revert Hin Hw. unfold cancel.
+  destruct (existsb (has_id id) (act s)) eqn:E.
+  - set (acts := filter _ (act s)).
+    pose proof (Inv_R s HI) as HR. pose proof HR as (HT & Hs & _ & _ & _ & Hact & _).
+    assert (HF : Forall2 (Rx (now s) (scl s)) acts
+                         (filter (fun y => negb (fhas_id id y)) (fact (abs s)))).
+    { apply Forall2_filter; auto. intros x y (_ & Hi & _). unfold has_id, fhas_id. rewrite Hi. auto. }
+    destruct (throttle_R s _ _ HT Hs HF) as (A1 & _ & _ & _ & _ & A6 & _ & A8 & _).
+    rewrite A1, A6. intros Hin Hw. split; auto.
+    assert (In (xid x') (map xid acts)) by (rewrite <- A8; apply in_map; auto).
+    apply in_map_iff in H as (z & Hz & Hzin). apply filter_In in Hzin as [_ Hne].
+    unfold has_id in Hne. rewrite Hz in Hne. intros Heq. rewrite Heq, Z.eqb_refl in Hne. discriminate.
+  - rewrite (filter_none _ _ E). intros Hin Hw. split; auto.
+    intros Heq. assert (existsb (has_id id) (act s) = true).
+    { apply existsb_exists. exists x'. split; auto. unfold has_id. rewrite Heq. apply Z.eqb_refl. }
+    congruence.
+Qed.
+
+Lemma sum_flim_nonneg ys : Forall (fun y => 0 < flim y) ys -> 0 <= sum_flim ys.
+Proof. induction 1; [apply Qle_refl|]. unfold sum_flim in *; cbn. lra. Qed.
+
+Lemma sum_flim_pos ys y : Forall (fun y => 0 < flim y) ys -> In y ys -> 0 < sum_flim ys.
+Proof.
+  induction 1; cbn; [tauto|]. intros [->|Hin].
+  - pose proof (sum_flim_nonneg _ H0). unfold sum_flim in *; cbn. lra.
+  - specialize (IHForall Hin). unfold sum_flim in *; cbn. lra.
+Qed.
+
+(** the rate the fluid machine integrates ([flow_to]) is the property's formula *)
+Theorem frate_spec f tt y :
+  fthr f = Fin tt -> 0 < tt -> Forall (fun y => 0 < flim y) (fact f) -> In y (fact f) ->
+  frate f y == Qmin (flim y) (flim y * tt / sum_flim (fact f)).
+Proof.
+  intros HT Ht Hl Hin. unfold frate. rewrite HT. apply rate_spec; auto.
+  - eapply sum_flim_pos; eauto.
+  - rewrite Forall_forall in Hl. apply Qlt_le_weak; auto.
+Qed.
+
+(** in every reachable state of the fluid machine no amount exceeds its volume *)
+Theorem fluid_no_overshoot T ops :
+  Tpos T -> Forall op_ok ops ->
+  Forall (fun y => famt y <= fvol y) (fact (fold_left fapply ops (finit T))).
+Proof.
+  intros HT Hok. pose proof (reach_R T ops HT Hok) as (_ & _ & _ & _ & _ & Hact & _).
+  eapply Forall2_right; [|exact Hact]. cbn.
+  intros x y ((_ & _ & _ & _ & Hg) & _ & _ & Hv & Ha). rewrite Ha, <- Hv. exact Hg.
+Qed.
+
+(** satisfiability of the hypotheses, and the example of the class docstring:
+    Pipe(3), two transfers of 15 with limit 3 take 10 time units *)
+Example ex_hyps : Tpos (Fin 3) /\ Forall op_ok [Join 0 0 15 (Fin 3); Join 0 1 15 (Fin 3); Cancel 2 0].
+Proof. split; [reflexivity|]. repeat constructor; cbn; lra. Qed.
+
+Example ex_doc :
+  run_case 3 1 [[0;0;0;1;15;1;3;1];[0;1;0;1;15;1;3;1]]%Z = [[0;10;1];[1;10;1]]%Z.
+Proof. vm_compute. reflexivity. Qed.
+
+(** a join in mid-flight with another limit, a zero volume, a cancellation and an
+    infinite limit (ld = 0) *)
+Example ex_mixed :
+  run_case 3 1 [[0;0;0;1;15;1;3;1];[0;1;1;1;7;1;2;1];[0;2;2;1;0;1;2;1];[1;0;3;1]]%Z
+  = [[2;2;1];[1;53;10]]%Z.
+Proof. vm_compute. reflexivity. Qed.
+
+Example ex_inv : Inv (init (Fin 3)).
+Proof. apply (reach_Inv (Fin 3) []); [reflexivity | constructor]. Qed.
